@@ -1,4 +1,63 @@
-import AmaranthVerif.Spec.Denote
+import AmaranthVerif.Proofs.Exact
+
+/-!
+# C01 — operators compute exact integer results in shapes that never overflow
+
+`denote` (Spec/Denote.lean) is the exact Python-integer meaning of an expression with the three
+documented deviations; `shapeOf` follows `Operator.shape` & co.; `evalRtl` follows the compiled
+simulator (`_RHSValueCompiler`, after the F1 repair). All theorems quantify over every context,
+every environment whose signals hold values of their shapes, and every well-formed expression of
+any depth and any widths.
+-/
+
 namespace Amaranth.C01
-theorem placeholder : True := trivial
+open Amaranth
+
+/-- The reported shape is constructible and always able to represent the exact result:
+no operator overflows, wraps or loses a sign. -/
+theorem shape_sound (ctx : Ctx) (env : Env) (hok : EnvOk ctx env) (e : Expr) (hwf : e.wf ctx = true) :
+    (shapeOf ctx e).WF ∧ (shapeOf ctx e).contains (denote ctx env e) :=
+  ⟨(sound ctx env hok e hwf).swf, (sound ctx env hok e hwf).rng⟩
+
+/-- A simulated circuit computing the expression yields exactly the exact result: the compiled
+code's value, normalised to the expression's shape as every assignment does, is `denote`. -/
+theorem rtl_exact (ctx : Ctx) (env : Env) (hok : EnvOk ctx env) (e : Expr) (hwf : e.wf ctx = true) :
+    rtlValue ctx env e = denote ctx env e :=
+  (sound ctx env hok e hwf).sgn
+
+/-- What a consumer that only masks (bit-vector contexts: `Cat`, reductions, switch tests) sees. -/
+theorem rtl_operand_mask (ctx : Ctx) (env : Env) (hok : EnvOk ctx env) (e : Expr) (hwf : e.wf ctx = true) :
+    mask (widthOf ctx e) (evalRtl ctx env e) = denote ctx env e % 2 ^ widthOf ctx e :=
+  (sound ctx env hok e hwf).msk
+
+/-- The value a circuit computes stays inside the reported shape (corollary). -/
+theorem rtl_in_shape (ctx : Ctx) (env : Env) (hok : EnvOk ctx env) (e : Expr) (hwf : e.wf ctx = true) :
+    (shapeOf ctx e).contains (rtlValue ctx env e) := by
+  rw [rtl_exact ctx env hok e hwf]; exact (shape_sound ctx env hok e hwf).2
+
+/-! ### Non-vacuity: a depth-3 mixed-sign expression meets the hypotheses -/
+
+def exCtx : Ctx := [⟨4, false⟩, ⟨3, true⟩]
+def exEnv : Env := [13, -4]
+/-- `(a * b - ~a).bit_select(b.as_unsigned(), 3)` -/
+def exExpr : Expr :=
+  .part (.op2 .sub (.op2 .mul (.sig 0) (.sig 1)) (.op1 .inv (.sig 0))) (.op1 .u (.sig 1)) 3 1
+
+example : exExpr.wf exCtx = true := by decide
+example : denote exCtx exEnv exExpr = 4 := by decide
+example : rtlValue exCtx exEnv exExpr = 4 := by decide
+
+/-! ### F1: the compiler as found reads raw bits above the MSB in a part-select
+
+`(~a).bit_select(off, 4)` with `a = 0` (4 bits) and `off = 2`: exact result 3, old compiler 15. -/
+
+def f1Ctx : Ctx := [⟨4, false⟩, ⟨2, false⟩]
+def f1Env : Env := [0, 2]
+def f1Expr : Expr := .part (.op1 .inv (.sig 0)) (.sig 1) 4 1
+
+theorem f1_witness :
+    f1Expr.wf f1Ctx = true ∧ denote f1Ctx f1Env f1Expr = 3 ∧
+    norm (shapeOf f1Ctx f1Expr) (evalRtlUnfixed f1Ctx f1Env f1Expr) = 15 ∧
+    rtlValue f1Ctx f1Env f1Expr = 3 := by decide
+
 end Amaranth.C01
